@@ -188,3 +188,36 @@ CLAIMED["C19"]["technique"] += ", error-examined rule in the snapshot replacemen
 CLAIMED["C19"]["text"] += "; no error of the write/close/rename sequence is dropped; the saver goroutine ends only in the arm that makes the final save; the save path does not look at the cancellation of its lane"
 CLAIMED["C20"]["technique"] += ", API-acts-on-own-instance rule, no-plain-send rule for counted goroutines, saver rules"
 CLAIMED["C20"]["text"] += "; the termination API reaches no package-level registry; a counted goroutine has no plain channel send"
+
+# --- additions after the sixth batch of seeded changes (DESIGN.md §5.1f)
+CLAIMED["C01"]["technique"] += ", projection rule for String methods of text-carrying reply types (R-stringer-identity), constructor of the connection's parser included in the bytes-untouched rule"
+CLAIMED["C01"]["text"] += "; the String method fmt uses for a text reply returns the receiver's own bytes; the connection creates its parser through a constructor that does not rewrite the buffer"
+CLAIMED["C02"]["technique"] += ", finite-sum rule for float counters (R-float-finite), allocated-in-the-iteration rule for payloads stored in a loop (R-payload-distinct-backing), per-item-value rule for loops that build a result (R-loop-element-fresh), typed-accessor-before-any-reply rule (R-type-before-reply)"
+CLAIMED["C02"]["text"] += "; a float sum is tested with IsInf/IsNaN before it is stored; values stored by one MSET do not share a backing array; a value appended per item is not carried over from the previous item; an existing key is asked for its type before anything is answered"
+CLAIMED["C03"]["technique"] += ", negation sink of the bound analysis (the operand cannot be the smallest integer), three-fold unrolling in the list-shape interpreter, emptied-aggregate-removes-its-own-key rule, memo-invalidation rule for list headers"
+CLAIMED["C03"]["text"] += "; a count or index from the command line is negated only where the smallest integer is excluded; a key removed because its list became empty is the key that list was looked up under"
+CLAIMED["C04"]["technique"] += ", complete-bucket-scan rule (R-dict-scan-complete), emptied-aggregate-removes-its-own-key rule, typed-accessor-before-any-reply rule, per-item-value rule, finite-sum rule"
+CLAIMED["C04"]["text"] += "; a counting loop over the dictionary's buckets covers the whole array; HMGET appends a value computed for that field; HRANDFIELD asks for the type before it answers for an existing key"
+CLAIMED["C05"]["technique"] += ", complete-bucket-scan rule, emptied-aggregate-removes-its-own-key rule (R-empty-removes-own-key), SMOVE reply and single-operand clauses, typed-accessor-before-any-reply rule"
+CLAIMED["C05"]["text"] += "; SMOVE removes the source key (not another) when the source became empty and answers 1 after the removal; the intersection of one set is that set"
+CLAIMED["C06"]["technique"] += ", complete-bucket-scan rule, emptied-aggregate-removes-its-own-key rule, typed-accessor-before-any-reply rule, own-storage rule for payloads stored in a loop"
+CLAIMED["C06"]["text"] += "; the shrink decision of the keyspace dictionary looks at every bucket pair; a copied list of three or more elements has correct back links (three unrollings)"
+CLAIMED["C07"]["technique"] += ", GETEX-needs-an-option rule, clock-read-at-execution rule for relative deadlines (R-C07-deadline-base), who-may-call rule for the function that re-files a key object under another name (R-C07-mover-callers), conditions-dominate-mutations rule (R-options-before-change)"
+CLAIMED["C07"]["text"] += "; GETEX without option changes no deadline; a relative deadline is added to a clock reading of the executing command, not to a time stored in the context; only RENAME/RENAMENX carry a deadline to another name; EXPIRE tests NX/XX/GT/LT before it changes anything"
+CLAIMED["C08"]["technique"] += ", new-command-object-per-command rule (R-token-fresh), shared-lock-reaches-no-mutation rule (R-shared-lock-readonly), no-escape rule for containers that share storage with database fields (R-guarded-backing-escape)"
+CLAIMED["C08"]["text"] += "; the command object whose id the re-entrant lock compares is created per command; nothing under a shared (reader) lock mutates; a function that closes its own critical section returns no slice backed by a database field"
+CLAIMED["C09"]["technique"] += ", queue-starts-empty rule (new slice, or kept storage emptied wherever a transaction ends)"
+CLAIMED["C09"]["text"] += "; the queue MULTI installs is empty"
+CLAIMED["C11"]["technique"] += ", deleted-entry-is-the-emptied-queue's rule for the wait table, wake-count-is-a-length rule"
+CLAIMED["C11"]["text"] += "; the wait-table entry deleted when a queue empties is read through the registration that was unlinked; the number of waiters to wake is a length or kept count, never a command-line number"
+CLAIMED["C13"]["technique"] += ", negation sink of the bound analysis"
+CLAIMED["C14"]["technique"] += ", file-named-by-table-key rule for the saver (R-C19-file-index)"
+CLAIMED["C14"]["text"] += "; a database's snapshot file is named by the key of the map step that yields that database"
+CLAIMED["C15"]["technique"] += ", accepted-version-is-stored path rule for HELLO, RESP2-kinds-only rule for replies built around the handler call (R-C15-unconverted-safe), projection rule for the scalar cases of the down-converter (R-stringer-identity)"
+CLAIMED["C15"]["text"] += "; a version HELLO compared equal to 2 or 3 is stored before the handler returns; replies that bypass the down-converter are RESP2 kinds; a verbatim string is converted to its text, not to its wire form"
+CLAIMED["C16"]["technique"] += ", state-machine-goroutine-touches-no-session-field clause of the confinement rule, pool rule through deferred closures, new-command-object-per-command rule, shared-lock and backing-array rules"
+CLAIMED["C16"]["text"] += "; the goroutine that handles a connection's termination touches no session field a command goroutine owns"
+CLAIMED["C19"]["technique"] += ", file-named-by-table-key rule, mark-after-replace ordering rule (R-C19-dirty-after-replace), new-target-per-record rule for the decoder (R-C19-decode-fresh), whole-string-parse rule for snapshot discovery (R-C19-discover-parse)"
+CLAIMED["C19"]["text"] += "; a flush marks the NEW dictionary dirty; every Decode in the record loop writes into a variable declared in the loop; the index of a snapshot file is a whole-string strconv parse of its suffix with the error tested"
+CLAIMED["C20"]["technique"] += ", Done-of-a-cancellable-lane rule, no-package-table-aliased-by-a-mutated-instance-field rule, listener-published-before-anything-else rule"
+CLAIMED["C20"]["text"] += "; no goroutine waits on Done() of a lane derived without cancellation; no instance field that is modified holds a package-level map; between net.Listen and the store of the listener nothing of the package runs"
